@@ -66,6 +66,10 @@ def r_id(e, R):
     R.check(g.dominates(ins[0][0], puts[0][0]), "R-ID", "submit: the work item is in the pending table before its id is queued", sub.short,
             "pending[id] = w before work_ids.put(id)", "the id is queued before the item is registered: the manager can dequeue it first and "
             "fail on the lookup (KeyError kills the manager thread)", e.loc(sub, puts[0][1]))
+    # (the id may be read once into a local under the lock: `work_id = self._queue_count`)
+    key_alias = key.id if isinstance(key, ast.Name) and len(e.local_defs(sub, key.id)) == 1 and isinstance(e.local_defs(sub, key.id)[0], ast.Attribute) else None
+    if key_alias is not None:
+        key = e.local_defs(sub, key_alias)[0]
     cattr = key.attr if isinstance(key, ast.Attribute) else None
     if cattr is None:
         R.fail("R-ID", sub.short, norm(key), "work ids are not taken from an executor counter", e.loc(sub, key))
@@ -73,8 +77,10 @@ def r_id(e, R):
     stores = attr_stores(e, (cattr,), a.executor_objs)
     incs = []
     for f, x, st in stores:
-        if isinstance(st, ast.AugAssign):
-            okinc = isinstance(st.op, ast.Add) and isinstance(st.value, ast.Constant) and st.value.value == 1 and f is sub
+        plus_one = isinstance(st, ast.Assign) and isinstance(st.value, ast.BinOp) and isinstance(st.value.op, ast.Add) and isinstance(st.value.right, ast.Constant) \
+            and st.value.right.value == 1 and key_alias is not None and isinstance(st.value.left, ast.Name) and st.value.left.id == key_alias and f is sub
+        if isinstance(st, ast.AugAssign) or plus_one:
+            okinc = plus_one or (isinstance(st.op, ast.Add) and isinstance(st.value, ast.Constant) and st.value.value == 1 and f is sub)
             R.check(okinc, "R-ID", f"{f.short}: the id counter only ever grows by one, in submit", f.short, norm(st),
                     "the work-id counter is modified other than by `+= 1` in submit: ids can repeat", e.loc(f, st))
             if f is sub:
